@@ -347,6 +347,16 @@ func (x *Ctx) hintRules(r *core.Result, rs *core.RuleStat) {
 						found = true
 					}
 				}
+				// a reader allocated right here (`&ValueReader{…}`) starts with the hint at zero; it stays a refresh
+				// value if nothing but refresh values is stored into it
+				if al, isNew := ret.Results[0].(*ssa.Alloc); isNew && al.Heap && !found {
+					found = true
+					for _, fs := range x.fieldStores(borrowFn) {
+						if fs.Field == name && fs.Base.isLeaf(al) && !isRefreshRX(fs.Val) {
+							found = false
+						}
+					}
+				}
 				if !found {
 					ok = false
 				}
